@@ -1,5 +1,6 @@
 import WcModel.Proofs.GlobTrace
 import WcModel.Proofs.GlobFlags
+import WcModel.Proofs.GlobMatch
 /-
   C06 — `**` does not traverse symlinked directories unless asked; glob terminates.
 
@@ -56,6 +57,32 @@ theorem link_not_entered (w : WalkCfg) (fs : FS) (absPat : Bool) (m : Matcher) (
   cases hr with
   | refl => exact absurd rfl hp
   | @step p' q' es n x _ hg hx hl _ => exact ⟨p', q', es, n, x, rfl, hg, hx, hl⟩
+
+/-- **C06_real.**  `globmatch` with REALPATH applies the same rule to the path it is given:
+    the pieces a `**` group captured pass only if none of the tested ones is a symbolic link
+    (every piece; the last is exempt when the group reaches the end of the path) — and the rule
+    is switched off exactly by FOLLOW ∧ ¬GLOBSTARLONG (`C04.follow_flag`).  Which pieces a group
+    captured is `Re.runCap`'s first match (validated against `re`, not proved): the statement
+    is about `_fs_match`'s loop, for whatever the group holds.  Known defect of that loop with
+    several groups: KF-G3 (wrong base for the second group), witness in `Properties/C04.lean`. -/
+theorem real_link_rule (fs : FS) (atEnd : Bool) (parts : List Name) (j last : Nat) (base : List Char)
+    (h : (fsPieces fs atEnd parts j last base).2 = true) (k : Nat) (hk : k < parts.length)
+    (hc : (!atEnd || j + k != last) = true) :
+    fs.islink ((parts.take (k + 1)).foldl pjoin base) = false := fsPieces_ok fs atEnd parts j last base h k hk hc
+
+/-- `***` emits no capture group, so nothing of it is link-tested: under GLOBSTARLONG a path
+    through a symlinked directory matches `***` and not `**` (whole pipeline, `decide +kernel`) -/
+theorem real_long_star :
+    let t : FS := ⟨.dir [("d".toList, .dir [("g".toList, .file)]), ("ld".toList, .link (some ["d".toList]))], []⟩
+    let m := fun (fl : Nat) (p : String) (path : String) =>
+      match compileMatch fl false [p.toList] none with
+      | .ok o => some (matchReal t o path.toList)
+      | .error _ => none
+    m (Gen.FGLOBSTARLONG ||| Gen.FREALPATH) "***" "ld/g" = some true ∧
+    m (Gen.FGLOBSTARLONG ||| Gen.FREALPATH) "**" "ld/g" = some false ∧
+    m (Gen.FGLOBSTAR ||| Gen.FREALPATH) "**" "ld/g" = some false ∧
+    m (Gen.FGLOBSTAR ||| Gen.FREALPATH ||| Gen.FFOLLOW) "**" "ld/g" = some true ∧
+    m (Gen.FGLOBSTAR ||| Gen.FREALPATH) "ld/*" "ld/g" = some true := by decide +kernel
 
 /-! ### witnesses (`decide +kernel`; labelled: these are tests of the statements, not proofs) -/
 
